@@ -19,6 +19,16 @@ def same_data(src, back):
     """None when the read-back holds exactly the source's elements, functions (exact values), ECPs and electron counts;
     otherwise (fingerprint, description)"""
     se, be = src['elements'], back['elements']
+    # every number of the read-back must be a number (what float() and the schema accept)
+    for z, el in be.items():
+        nums = [x for sh in el.get('electron_shells', []) for x in list(sh['exponents']) + [c for col in sh['coefficients'] for c in col]]
+        nums += [x for p in el.get('ecp_potentials', []) for x in list(p['gaussian_exponents']) + [c for col in p['coefficients'] for c in col]]
+        for x in nums:
+            try:
+                float(x)
+                oracle.dec(x)
+            except Exception:  # noqa
+                return ('non-numeric', 'element %s: the read-back holds %r where a number is expected' % (z, x))
     if sorted(se, key=int) != sorted(be, key=int):
         lost = sorted(set(se) - set(be), key=int)
         if not be:
